@@ -94,6 +94,11 @@ ObsSpool(o, when, pending, broken) ==
      ELSE V(o3, o.spoolC = << >> \/ (o.spoolC[1] \subseteq pending /\ o.spoolC[2] = broken),
             "ActiveAfterShutdown")
 
+\* the process is started again on the same spool directory: a new scheduler instance, not
+\* shut down; what was handed out, dispatched and given a terminal outcome stays as it is, so
+\* "exactly once" and "not before its time" are judged across the restart
+ObsRestart(o) == [o EXCEPT !.closeSt = "no", !.spoolC = << >>, !.calling = << >>]
+
 \* end of the run: `hung` = names of API calls (producers, "closer") that never returned;
 \* now = final clock value, beyond every due time that was handed out
 ObsEnd(o, hung, now) ==
